@@ -25,6 +25,7 @@ import (
 	"net"
 	"net/netip"
 	"os"
+	"sort"
 	"strconv"
 	"strings"
 	"sync/atomic"
@@ -853,7 +854,32 @@ func (h *vC03Hist) opFailForge() {
 	}
 	key, how := h.mutate(ident)
 	retry := h.c.failure.now().Add(time.Minute)
-	if r.Intn(4) == 0 { // zone kind
+	if x := r.Intn(10); x < 3 {
+		// the audience dimension on its own: the same question filed for one audience under the key of
+		// another (scoped under shared, shared under scoped, the other CD partition)
+		valid := func() netip.Prefix {
+			for i := 0; i < 16; i++ {
+				if p := vC03PickScope(r); normalizeKeyScope(p).IsValid() {
+					return p
+				}
+			}
+			return netip.MustParsePrefix("10.1.2.0/24")
+		}
+		key = ident
+		switch x {
+		case 0:
+			if !normalizeKeyScope(ident.scope).IsValid() {
+				ident.scope = valid()
+			}
+			key.scope = netip.Prefix{}
+		case 1:
+			ident.scope = netip.Prefix{}
+			key.scope = valid()
+		default:
+			key.cd = !ident.cd
+		}
+		how = "audience"
+	} else if r.Intn(4) == 0 { // zone kind
 		id := h.failID(fmt.Sprintf("z|%s|%d", vC03Lower(ident.q.name), ident.q.qclass))
 		zk := normalizeFailureZoneKey(FailureZoneKey{Zone: ident.q.name, Qclass: ident.q.qclass})
 		hash := failureZoneHash(normalizeFailureZoneKey(FailureZoneKey{Zone: key.q.name, Qclass: key.q.qclass}))
@@ -1255,16 +1281,28 @@ func (h *vC03Hist) prefetchHistory() {
 				e.stored = time.Now().Add(-e.ttl * 9 / 10)
 			}
 		}
-		// which entry will this request hit, and is a refresh due?
-		var due *CacheEntry
 		mode := []int{0, 1, 2, 2}[r.Intn(4)]
 		if !s.scope.IsValid() && mode == 1 {
 			mode = 2
 		}
-		before := len(h.ops)
 		h.serve(s, r.Intn(2) == 0, mode)
-		_ = before
-		// collect every refresh the request queued (at most one per entry): wait for the claim to clear
+		if !h.prefetchCollect(pq) {
+			return
+		}
+	}
+	// probes from every audience after the refreshes
+	for _, s := range specs {
+		s.q.name = vC03MixCase(r, s.q.name)
+		h.serve(s, r.Intn(2) == 0, 0)
+		h.serve(s, r.Intn(2) == 0, 2)
+	}
+}
+
+// collect every refresh the last request queued (at most one per entry): wait for the claim to clear;
+// false = the history is inconclusive
+func (h *vC03Hist) prefetchCollect(pq *vC03PrefetchQueryer) bool {
+	{
+		var due *CacheEntry
 		deadline := time.Now().Add(3 * time.Second)
 		for {
 			pending := false
@@ -1282,7 +1320,7 @@ func (h *vC03Hist) prefetchHistory() {
 			}
 			if time.Now().After(deadline) {
 				h.incon = true
-				return
+				return false
 			}
 			time.Sleep(200 * time.Microsecond)
 		}
@@ -1325,12 +1363,7 @@ func (h *vC03Hist) prefetchHistory() {
 			}
 		}
 	}
-	// probes from every audience after the refreshes
-	for _, s := range specs {
-		s.q.name = vC03MixCase(r, s.q.name)
-		h.serve(s, r.Intn(2) == 0, 0)
-		h.serve(s, r.Intn(2) == 0, 2)
-	}
+	return true
 }
 
 // ---- the decoded-path chase (additionalAnswer) with sub-queries answered from the store
@@ -1822,6 +1855,16 @@ func (h *vC03Hist) serve(s vC03Spec, wireborn bool, mode int) {
 	} else if mode == 2 {
 		client = vC03PickClient(r)
 	}
+	h.serveClient(s, wireborn, client)
+}
+
+// one request for s through the edns+cache pipeline with the given ECS source (invalid: none)
+func (h *vC03Hist) serveClient(s vC03Spec, wireborn bool, client netip.Prefix) {
+	r := h.r
+	w := vC03WireOf(s.q.name)
+	if w == nil {
+		return
+	}
 	req := vC03Req(s.q, s.cd)
 	if client.IsValid() || r.Intn(3) == 0 {
 		req.SetEdns0(1232, r.Intn(2) == 0)
@@ -2042,7 +2085,10 @@ func (h *vC03Hist) caseTerm() string {
 func vC03History(r *rand.Rand) map[string]any {
 	// 0,1: answers; 2: + failures; 3: + cuts; 4: wire alias chase; 5: write-back through the pipeline;
 	// 6: background refresh (prefetch); 7: decoded-path alias chase over a store-backed Queryer
-	flavour := r.Intn(8)
+	flavour := r.Intn(10)
+	if flavour >= 8 { // the failure cache and the write-back path get a double share
+		flavour = []int{2, 5}[flavour-8]
+	}
 	pol := vC03Policies[r.Intn(len(vC03Policies))]
 	cfg := vC03Config(pol)
 	if flavour == 6 {
@@ -2187,9 +2233,188 @@ func vC03HashCase(r *rand.Rand) map[string]any {
 	}
 }
 
+// ---- corpus: fixed scripted histories (VERIF_CORPUS/*.json) replayed before the generated ones.  Each
+// script is the minimal history that exposed a finding or a seeded change; it names every question,
+// key, audience and downstream behaviour explicitly, so it keeps its meaning when the generators drift.
+
+type vC03CSpec struct {
+	N  string `json:"n"`
+	T  uint16 `json:"t"`
+	C  uint16 `json:"c"`
+	CD bool   `json:"cd"`
+	S  string `json:"s"` // scope / audience prefix, "" = none
+}
+
+func (c *vC03CSpec) spec() vC03Spec {
+	if c == nil {
+		return vC03Spec{}
+	}
+	s := vC03Spec{q: vC03Q{name: c.N, qtype: c.T, qclass: c.C}, cd: c.CD}
+	if s.q.qtype == 0 {
+		s.q.qtype = 1
+	}
+	if s.q.qclass == 0 {
+		s.q.qclass = 1
+	}
+	if c.S != "" {
+		s.scope = netip.MustParsePrefix(c.S)
+	}
+	return s
+}
+
+type vC03CStep struct {
+	Op     string     `json:"op"`
+	Key    *vC03CSpec `json:"key"`
+	Ident  *vC03CSpec `json:"ident"`
+	Q      *vC03CSpec `json:"q"`
+	Target string     `json:"target"` // "%d" is replaced by the alias entry's id
+	Tag    bool       `json:"tag"`
+	Wire   bool       `json:"wire"`
+	ECS    string     `json:"ecs"`
+	Kind   int        `json:"kind"`
+	Bits   int        `json:"bits"`
+	Ms     int        `json:"ms"`
+	Age    bool       `json:"age"`
+}
+
+type vC03CScript struct {
+	Name    string      `json:"name"`
+	Why     string      `json:"why"`
+	Pol     [4]uint8    `json:"pol"`
+	TLD     string      `json:"tld"`
+	Queryer string      `json:"queryer"` // "", "loop", "store", "prefetch"
+	Steps   []vC03CStep `json:"steps"`
+}
+
+func vC03RunScript(sc vC03CScript) map[string]any {
+	pol := sc.Pol
+	if pol == [4]uint8{} {
+		pol = vC03Policies[0]
+	}
+	cfg := vC03Config(pol)
+	if sc.Queryer == "prefetch" {
+		cfg.Prefetch = 50
+	}
+	c := New(cfg)
+	defer c.Stop()
+	tld := sc.TLD
+	if tld == "" {
+		tld = "test."
+	}
+	h := &vC03Hist{now: time.Unix(1_900_000_000, 0), r: rand.New(rand.NewSource(1)), c: c, edns: ednsmw.New(cfg), names: []string{tld}, nextID: 1, pol: pol,
+		ptr: map[uint64]*CacheEntry{}, keys: map[uint64]string{}, failIDs: map[string]uint64{}, cutIDs: map[uint64]bool{}}
+	c.failure.now = func() time.Time { return h.now }
+	if c.ecsPolicy == nil {
+		return map[string]any{"inconclusive": true}
+	}
+	var pq *vC03PrefetchQueryer
+	switch sc.Queryer {
+	case "loop":
+		c.SetQueryer(vC03LoopQueryer{tld: tld})
+	case "store":
+		c.SetQueryer(vC03StoreQueryer{c: c})
+	case "prefetch":
+		pq = &vC03PrefetchQueryer{h: h, seen: make(chan vC03RefreshSeen, 16)}
+		c.SetPrefetchQueryer(pq)
+	}
+	for _, st := range sc.Steps {
+		var client netip.Prefix
+		if st.ECS != "" {
+			client = netip.MustParsePrefix(st.ECS)
+		}
+		switch st.Op {
+		case "set":
+			key := st.Key.spec()
+			ident := key
+			how := "genuine"
+			if st.Ident != nil {
+				ident, how = st.Ident.spec(), "forged"
+			}
+			id := h.setAnswer(key, ident, how)
+			h.stored = append(h.stored, vC03Stored{id: id, ident: ident, key: key, keyHash: h.keyOf(key)})
+		case "alias":
+			key := st.Key.spec()
+			ident := key
+			if st.Ident != nil {
+				ident = st.Ident.spec()
+				h.forged++
+			}
+			id := h.nextID
+			h.nextID++
+			h.setAliasTagged(key, ident, strings.ReplaceAll(st.Target, "%d", strconv.FormatUint(id, 10)), id, st.Tag)
+		case "serve":
+			h.serveClient(st.Q.spec(), st.Wire, client)
+			if pq != nil && !h.prefetchCollect(pq) {
+				return map[string]any{"inconclusive": true}
+			}
+		case "age":
+			if e, ok := h.c.positive.Get(h.keyOf(st.Key.spec())); ok && !e.prefetch.Load() {
+				e.stored = time.Now().Add(-e.ttl * 9 / 10)
+			}
+		case "chase":
+			h.serveChase(st.Q.spec())
+		case "msgchase":
+			h.serveMsgChase(st.Q.spec())
+		case "resolve":
+			h.resolve(st.Q.spec(), st.Wire, client, st.Kind, st.Bits)
+		case "fail":
+			h.failAt(st.Q.spec())
+		case "failwire":
+			h.failWireAt(st.Q.spec())
+		case "lookup":
+			h.lookupAt(st.Q.spec())
+		case "get":
+			h.getAt(st.Q.spec())
+		case "clock":
+			h.now = h.now.Add(time.Duration(st.Ms) * time.Millisecond)
+			h.ops = append(h.ops, fmt.Sprintf("OpClock %d", st.Ms))
+			h.desc = append(h.desc, fmt.Sprintf("clock +%dms", st.Ms))
+		default:
+			h.failf("corpus script %s: unknown op %q", sc.Name, st.Op)
+		}
+	}
+	if h.incon {
+		return map[string]any{"inconclusive": true}
+	}
+	return map[string]any{"k": "corpus", "coq": h.caseTerm(), "go_fail": h.fail, "nontrivial": h.hits > 0 || len(h.failIDs) > 0,
+		"desc": append([]string{"corpus script " + sc.Name + ": " + sc.Why}, h.desc...)}
+}
+
+func vC03Corpus(t *testing.T, tr *vC03Trace) {
+	dir := os.Getenv("VERIF_CORPUS")
+	if dir == "" {
+		return
+	}
+	ents, err := os.ReadDir(dir)
+	if err != nil {
+		return
+	}
+	var names []string
+	for _, e := range ents {
+		if strings.HasSuffix(e.Name(), ".json") {
+			names = append(names, e.Name())
+		}
+	}
+	sort.Strings(names)
+	for _, n := range names {
+		raw, err := os.ReadFile(dir + "/" + n)
+		if err != nil {
+			t.Fatalf("corpus %s: %v", n, err)
+		}
+		var list []vC03CScript
+		if err := json.Unmarshal(raw, &list); err != nil {
+			t.Fatalf("corpus %s: %v", n, err)
+		}
+		for _, sc := range list {
+			tr.emit(vC03RunScript(sc))
+		}
+	}
+}
+
 func TestVerifC03Store(t *testing.T) {
 	tr := vC03Open(t)
 	defer tr.f.Close()
+	vC03Corpus(t, tr)
 	seed := int64(vC03EnvInt("VERIF_SEED", 1))
 	n := vC03EnvInt("VERIF_N", 500)
 	r := rand.New(rand.NewSource(seed*7919 + 3))
